@@ -774,7 +774,7 @@ impl Scenario for C10 {
     }
     fn runs(&self, tier: Tier) -> u64 {
         match tier {
-            Tier::Quick => 1500,
+            Tier::Quick => 2500,
             Tier::Thorough => 60000,
         }
     }
